@@ -44,6 +44,8 @@ pub enum Call {
     PartsType(String),
     /// `b.parts.qualifiers.insert(k, v)`, result ignored
     PartsQual(String, String),
+    /// `if let Ok(q) = Qualifiers::try_from_iter(pairs) { b.parts.qualifiers = q }`
+    PartsQualsFromIter(Vec<(String, String)>),
 }
 
 /// Field touched by a call, for the commutation check ("calls on different fields commute").
@@ -74,7 +76,7 @@ impl Call {
                     Field::None
                 }
             },
-            Call::NoQuals => Field::AllQuals,
+            Call::NoQuals | Call::PartsQualsFromIter(_) => Field::AllQuals,
             Call::Typed(i, _) => Field::Qual(TYPED_KEYS[*i as usize].to_string()),
             Call::Checksum(_) => Field::Qual("checksum".into()),
         }
@@ -168,6 +170,19 @@ impl BModel {
                 }
             },
             Call::NoQuals => self.quals.clear(),
+            Call::PartsQualsFromIter(pairs) => {
+                let mut n = BTreeMap::new();
+                let mut ok = true;
+                for (k, v) in pairs {
+                    if !key_ok(k) || n.insert(ascii_lower(k), v.clone()).is_some() {
+                        ok = false;
+                        break;
+                    }
+                }
+                if ok {
+                    self.quals = n;
+                }
+            },
             Call::Typed(i, v) => match v {
                 Some(v) => {
                     self.quals.insert(TYPED_KEYS[*i as usize].into(), v.clone());
@@ -354,7 +369,7 @@ pub fn rand_cs_entries(r: &mut Rng) -> Vec<(String, CsVal)> {
 }
 
 pub fn rand_call(r: &mut Rng, typed: bool) -> Call {
-    match r.below(40) {
+    match r.below(41) {
         0..=3 => Call::Ns(rand_value(r)),
         4 => Call::NoNs,
         5..=8 => Call::Name(rand_value(r)),
@@ -386,6 +401,11 @@ pub fn rand_call(r: &mut Rng, typed: bool) -> Call {
             } else {
                 Call::PartsType(r.pick(U_TYPES_GENERIC).to_string())
             }
+        },
+        38 => {
+            let keys = ["a", "b", "B", "c", "a_b", "ab", "checksum", "!"];
+            let n = r.below(6);
+            Call::PartsQualsFromIter((0..n).map(|_| (r.pick(&keys).to_string(), r.pick(&["1", "2", "", "x"]).to_string())).collect())
         },
         _ => Call::PartsQual(rand_key(r), rand_value(r)),
     }
